@@ -868,6 +868,10 @@ func (w *zzC15World) start() (err error) {
 		return err
 	}
 
+	// The state is read from the filter's own configuration: since b74d80f
+	// that is a private copy, no longer the object given to New.
+	w.conf = w.d.conf
+
 	// As Start does, without starting the update loop.
 	w.d.filtersInitializerChan = make(chan filtersInitializerParams, 1)
 	w.d.RegisterFilteringHandlers()
